@@ -159,6 +159,19 @@ CHECKS["C28"] = dict(
     technique="TLA+ operational semantics executed by TLC on all paths of the lowered program; event-log invariants",
     design_ref="DESIGN.md section 4 C28", engine="FortranSem")
 
+CHECKS["C09"] = dict(
+    level="model_checking",
+    text=("Loops of a generated family that OMPParallelLoopTrans / OMPLoopTrans+OMPParallelTrans accept without "
+          "force are lowered; the loop and the private/firstprivate/schedule clauses PSyclone inferred are "
+          "exported from the real directive nodes. SemOmp.tla executes the loop on 1..2 threads (per-thread "
+          "cells for private/firstprivate/loop variable, shared store otherwise) with every iteration "
+          "distribution the schedule kind allows and every statement-level interleaving, for every input; "
+          "invariants: every terminal state has the serial run's shared observables, no undefined private "
+          "is read."),
+    note=SEM_NOTE + " Bounds: trip count <= 3, 2 threads, top-level statements of the body atomic.",
+    technique="TLA+ OpenMP data-sharing semantics; TLC explores all schedules/interleavings of the exported real directive",
+    design_ref="DESIGN.md section 4 C09, F.11", engine="FortranSem")
+
 NOT_YET = {}
 
 ALL = [f"C{i:02d}" for i in range(1, 30)]
